@@ -672,6 +672,48 @@ pub fn run_case(case: &mut Case) {
                     .set("denotes", d.value.show()),
             );
         }
+        // a name of the block written without its value right in front of the next member:
+        // `--rect --w --h 2 7` - the value cannot come from behind the neighbour
+        {
+            let cl = render(&units, &mut rng, SpellStyle::Canonical);
+            let at = (0..cl.argv.len().saturating_sub(3)).find(|&i| {
+                let o = &cl.origin;
+                o[i].role == Role::ArgName
+                    && o[i + 1].role == Role::ArgValue
+                    && o[i + 2].role == Role::ArgName
+                    && o[i + 3].role == Role::ArgValue
+                    && o[i].block.is_some()
+                    && o[i].block == o[i + 2].block
+                    && o[i].unit != o[i + 2].unit
+            });
+            if let Some(i) = at {
+                let mut argv = cl.argv.clone();
+                if rng.chance(1, 2) {
+                    // name1 value1 name2 value2 -> name1 name2 value2 value1
+                    let v1 = argv.remove(i + 1);
+                    argv.insert(i + 3, v1);
+                } else {
+                    // -> name2 name1 value1 value2 (the member declared later goes without)
+                    let n2 = argv.remove(i + 2);
+                    argv.insert(i, n2);
+                }
+                let class = "broken:valueless-name-in-front-of-next-member";
+                let (out, _) = b.run(case, &argv, class);
+                if let crate::outcome::Outcome::Value(_) = &out {
+                    case.rep.violation(
+                        "broken-block-yields-value:valueless-name-in-front-of-next-member",
+                        "contiguity",
+                        case.index,
+                        b.detail(
+                            &argv,
+                            class,
+                            "a failure (the first name has no value next to it)",
+                            &out,
+                        ),
+                    );
+                }
+            }
+        }
         for br in break_blocks(&b.spec, &units, &mut rng) {
             let mline = render(&br.units, &mut rng, SpellStyle::Canonical);
             let class = format!("broken:{}", br.kind);
